@@ -31,6 +31,14 @@ def sparc(b):             # call with the displacement's top bits all 0 or all 1
     return (b[0] == 0x40 and (b[1] & 0xC0) == 0x00) or (b[0] == 0x7F and (b[1] & 0xC0) == 0xC0)
 
 
+# instruction bits each reference predicate depends on: ("B", byte, bit)
+SUPPORT = {
+    "arm": [("B", 3, j) for j in range(8)],
+    "armthumb": [("B", 1, j) for j in range(3, 8)] + [("B", 3, j) for j in range(3, 8)],
+    "powerpc": [("B", 0, j) for j in range(2, 8)] + [("B", 3, j) for j in range(0, 2)],
+    "sparc": [("B", 0, j) for j in range(8)] + [("B", 1, j) for j in range(6, 8)],
+}
+
 X86_OPCODES = {0xE8, 0xE9}            # call rel32, jmp rel32
 X86_MSBYTE = {0x00, 0xFF}             # plausible most significant byte of the displacement
 X86_ALLOWED_MASK = {0, 1, 2, 4}       # kMaskToAllowedStatus = {1,1,1,0,1,0,0,0} of the reference implementation
